@@ -70,7 +70,8 @@ Base == [ nb |-> T0, na |-> T1, serial |-> Given(<<1, 2, 3>>), dn |-> DnOne, san
 
 Case(grp, p, self, subjAlg, signAlg, issuerKid, pubSrc) ==
   [grp |-> grp, params |-> p, self |-> self, subjAlg |-> subjAlg, signAlg |-> signAlg,
-   issuerKid |-> issuerKid, issuerDn |-> IssuerDn, pubSrc |-> pubSrc, hash2 |-> <<>>]
+   issuerKid |-> issuerKid, issuerDn |-> IssuerDn, pubSrc |-> pubSrc, hash2 |-> <<>>,
+   issuerIsCa |-> "default", issuerKu |-> "default"]   \* "default": an unconstrained CA with keyCertSign and cRLSign
 
 Quick == Tier = "quick"
 Bool == {TRUE, FALSE}
@@ -172,6 +173,13 @@ CustomCases == { Case("custom", [bg EXCEPT !.custom = cu], self, "ed25519", "ed2
 CustomAkiCases == { Case("custom", [Base EXCEPT !.custom = <<[oid |-> "2.5.29.35", crit |-> cr, content |-> "3000"]>>, !.isCa = ca], self, "ed25519", "ed25519", Kid("sha256"), "keypair") :
                       cr \in Bool, ca \in {NoCa, CaU}, self \in Bool }
 
+(* what kind of certificate the issuer object is does not change what is issued under it: issuers that are not CAs, CAs with *)
+(* a path length, issuers with odd key usages, each with and without a requested authority key identifier                      *)
+IssuerKindCases == { [Case("issuer-kind", [Base EXCEPT !.aki = aki, !.isCa = ca, !.sans = san], FALSE, "ed25519", "ed25519", ik, "keypair")
+                        EXCEPT !.issuerIsCa = ica, !.issuerKu = iku] :
+                       aki \in Bool, ca \in {NoCa, CaU}, san \in {<<>>, SanSome}, ik \in {Kid("sha256"), KidPre(<<1, 2, 3>>)},
+                       ica \in {NoCa, ExplicitNoCa, CaU, CaC(0)}, iku \in {<<>>, <<0>>, <<5, 6>>} }
+
 Algs == {"ed25519", "ecdsa-p256-sha256", "ecdsa-p384-sha384", "rsa-sha256", "rsa-sha384", "rsa-sha512"}
 AlgCases == { Case("alg", [Bg2 EXCEPT !.isCa = IF self THEN CaU ELSE NoCa], self, sa, ia, Kid("sha256"), "keypair") :
                 sa \in Algs, ia \in Algs, self \in Bool }
@@ -200,7 +208,7 @@ OutsideIssuerCases == { Case("validity", [Base EXCEPT !.nb = nb, !.na = na, !.is
                                   Tm(9999, 12, 31, 23, 59, 59)},
                           ca \in {NoCa, CaU} }
 Cases == PathLenKuCases \cup OutsideIssuerCases \cup LongKidCases \cup AutoSerialCases \cup PresenceCases \cup KuCases \cup PathLenCases \cup PrefixCases \cup SanCases \cup NcCases \cup DnCases
-         \cup KidCases \cup SerialCases \cup EkuCases \cup CustomCases \cup CustomAkiCases \cup AlgCases
+         \cup KidCases \cup SerialCases \cup EkuCases \cup CustomCases \cup CustomAkiCases \cup IssuerKindCases \cup AlgCases
 
 (* ---- abstract keys for the model (the harness substitutes real keys and real digests) ---- *)
 Filler18 == <<7, 7, 7, 7, 7, 7, 7, 7, 7, 7, 7, 7, 7, 7, 7, 7, 7, 9>>
